@@ -152,8 +152,12 @@ Fixpoint join (sep : bytes) (l : list bytes) : bytes :=
   end.
 
 Definition hex_digit (n : N) : N := if (n <? 10)%N then (n + 48)%N else (n + 87)%N.
+(* the empty string is printed as "-" so that every field of a result line is a non-empty token *)
 Definition hex_of_bytes (s : bytes) : bytes :=
-  flat_map (fun c => [hex_digit (c / 16)%N; hex_digit (c mod 16)%N]) s.
+  match s with
+  | [] => [45%N]
+  | _ => flat_map (fun c => [hex_digit (c / 16)%N; hex_digit (c mod 16)%N]) s
+  end.
 Definition hex_val (c : N) : N :=
   if is_digit c then (c - 48)%N else if (97 <=? c)%N then (c - 87)%N else (c - 55)%N.
 Fixpoint bytes_of_hex (s : bytes) : bytes :=
